@@ -40,12 +40,12 @@ class HarnessProblem(Exception):
 
 
 def _one_path():
-    from vt.choice import SymbolicChooser
+    from vt.choice import SliceSkip, SymbolicChooser
     from vt.env import Violation
 
     st = STATE
     st["paths"] += 1
-    ch = SymbolicChooser(fixed=st["fixed"])
+    ch = SymbolicChooser(fixed=st["fixed"], slice_=st.get("slice"))
     ctx = {"counters": {}, "summary": None}
     try:
         try:
@@ -55,6 +55,9 @@ def _one_path():
             st["choices_total"] += ch.count
             for k, v in ctx["counters"].items():
                 st["counters"][k] = st["counters"].get(k, 0) + v
+    except SliceSkip:
+        st["skipped"] = st.get("skipped", 0) + 1
+        return
     except Violation as v:
         sig = v.signature()
         if _is_known(sig):
@@ -140,6 +143,7 @@ def analyze(ob):
         STATE["params"] = ob.get("params", {})
         STATE["fixed"] = ob.get("fixed", {})
         STATE["known"] = ob.get("known", {})
+        STATE["slice"] = tuple(ob["slice"]) if ob.get("slice") else None
         # warm-up natively (plugin loading, spec compilation) and as a concrete smoke run
         from vt.choice import ReplayChooser
         from vt.env import Violation
@@ -173,6 +177,7 @@ def analyze(ob):
     res["counters"] = STATE["counters"]
     res["samples"] = STATE["samples"]
     res["distinct"] = len(STATE["distinct"])
+    res["skipped_other_slice"] = STATE.get("skipped", 0)
     if ob["kind"] == "e2c":
         if STATE["harness_error"]:
             res["verdict"] = "error"
